@@ -13,7 +13,8 @@ impl Compiler {
         // the window is overwritten: a freed register must never sit below a live one, or the
         // next call compiled into it destroys the locals above. Only the top of the pool is
         // released, one dead local at a time.
-        while let Some(top) = self.register_pool.iter().rposition(|&used| used) {
+        // (register 255 is reserved, never handed out: it is not part of the stack)
+        while let Some(top) = self.register_pool[..255].iter().rposition(|&used| used) {
             let Some(local) = self
                 .locals
                 .iter_mut()
